@@ -9,7 +9,7 @@ Public suffixes are reported as a number of labels (counted from the TLD).
 * `Rule`, `specGo`/`spec`: the PSL algorithm over a rule list (no trie).
 * `nodeAt`: the trie that gen.go builds from a rule list, indexed by path.
 * `walk`: the loop of `PublicSuffix` over any path-indexed trie (exact control flow, including the
-  ICANN-flag bookkeeping as coded).
+  ICANN-flag bookkeeping: the flag is taken from the node of the prevailing rule).
 * `Flat`, `find`, `flatWalk`: the same loop over the packed `nodes`/`children` tables with the
   binary search `find`; `etld1`: `EffectiveTLDPlusOne`.
 -/
@@ -121,10 +121,10 @@ def walk (look : List Nat → Option NodeInfo) : (path rest : List Nat) → Walk
     match look (path ++ [l]) with
     | none => (suffix, icann)
     | some nd =>
-      if nd.ntype = 1 then (some (path.length + 1 - 1), icann)        -- exception: break loop
+      if nd.ntype = 1 then (some (path.length + 1 - 1), nd.icann)     -- exception: icann = icannNode; break loop
       else
         let suffix := if nd.ntype = 0 then some (path.length + 1) else suffix
-        let icann := if nd.wildcard then icann else nd.icann            -- if !wildcard { icann = icannNode }
+        let icann := if nd.ntype = 0 then nd.icann else icann           -- case nodeTypeNormal: icann = icannNode
         match more with
         | [] => (suffix, icann)                                          -- dot == -1
         | _ :: _ => walk look (path ++ [l]) more
@@ -184,10 +184,10 @@ def flatWalk (f : Flat) : (depth : Nat) → (rest : List Nat) → (lo hi : Nat) 
     match f.child lo hi l with
     | none => (suffix, icann)
     | some (nd, lo', hi') =>
-      if nd.ntype = 1 then (some (depth + 1 - 1), icann)
+      if nd.ntype = 1 then (some (depth + 1 - 1), nd.icann)
       else
         let suffix := if nd.ntype = 0 then some (depth + 1) else suffix
-        let icann := if nd.wildcard then icann else nd.icann
+        let icann := if nd.ntype = 0 then nd.icann else icann
         match more with
         | [] => (suffix, icann)
         | _ :: _ => flatWalk f (depth + 1) more lo' hi'
